@@ -199,6 +199,9 @@ func evalStmtsInCurrentScope(vm *r.VM, stmtBlock *syntax.StmtBlock) (r.Element, 
 		switch stmt.(type) {
 		case *syntax.ClassDeclareStmt:
 		case *syntax.FunctionDeclareStmt:
+		case *syntax.EmptyStmt:
+			// a separator (；) after the last statement is no statement of its own: the value
+			// of the block stays that of the statement before it
 		default:
 			if rtnValue, err = evalStatement(vm, stmt); err != nil {
 				return nil, err
